@@ -3,6 +3,7 @@
 package kessoku
 
 import (
+	"fmt"
 	"go/ast"
 	"go/token"
 	"go/types"
@@ -729,4 +730,219 @@ func inv_collect_methods(t types.Type, pkg string, imports map[string]*Import, r
 	vs.Invariant("step", collectStep(t, pkg, imports, referencedImports, varPool))
 	vs.Invariant("nothing_taken_back", nothingTakenBack(referencedImports))
 	vs.Invariant("so_far", funcsCollected(vs.YieldSeq(typ.Methods()), kvcIdx))
+}
+
+// ---------------------------------------------------------------------------
+// C04: createASTTypeExpr - how a type is spelled. Recursive over the structure of the type; second contract (aspect
+// "spelling"), again one step of an induction: the expression returned for t has the syntactic shape of t's constructor
+// and its sub-expressions are expressions this function returned for t's components (ghost gSpells records, at each
+// recursive call, which type the returned expression was made for). That a well-shaped expression denotes its type is
+// the meta-argument (and is what typeexpr_bounded executes).
+// ---------------------------------------------------------------------------
+
+var gSpells = map[ast.Expr]types.Type{}
+
+func elemOf(t types.Type) types.Type {
+	if vs.TypeIs[*types.Pointer](t) {
+		return vs.As[*types.Pointer](t).Elem()
+	}
+	if vs.TypeIs[*types.Slice](t) {
+		return vs.As[*types.Slice](t).Elem()
+	}
+	if vs.TypeIs[*types.Array](t) {
+		return vs.As[*types.Array](t).Elem()
+	}
+	return vs.As[*types.Chan](t).Elem()
+}
+
+//kvc:ghost createASTTypeExpr@spelling after "expr, err := createASTTypeExpr(pkg, typ.Elem(), varPool, imports)"
+func ghostSpellsElem(expr ast.Expr, err error, typ types.Type) {
+	if err == nil {
+		gSpells[expr] = elemOf(typ)
+	}
+}
+
+//kvc:ghost createASTTypeExpr@spelling after "keyExpr, err := createASTTypeExpr(pkg, typ.Key(), varPool, imports)"
+func ghostSpellsKey(keyExpr ast.Expr, err error, typ *types.Map) {
+	if err == nil {
+		gSpells[keyExpr] = typ.Key()
+	}
+}
+
+//kvc:ghost createASTTypeExpr@spelling after "valueExpr, err := createASTTypeExpr(pkg, typ.Elem(), varPool, imports)"
+func ghostSpellsValue(valueExpr ast.Expr, err error, typ *types.Map) {
+	if err == nil {
+		gSpells[valueExpr] = typ.Elem()
+	}
+}
+
+// spelledFor: e is an expression a call of createASTTypeExpr returned for the type x
+func spelledFor(e ast.Expr, x types.Type) bool { return e != nil && gSpells[e] == x }
+
+func chanDirOf(d types.ChanDir) ast.ChanDir {
+	if d == types.SendOnly {
+		return ast.SEND
+	}
+	if d == types.RecvOnly {
+		return ast.RECV
+	}
+	return ast.SEND | ast.RECV
+}
+
+// needsParens: chan (<-chan T) - without parentheses "chan <-chan T" reads as chan<- (chan T)
+func needsParens(c *types.Chan) bool {
+	return c.Dir() == types.SendRecv && vs.TypeIs[*types.Chan](c.Elem()) && vs.As[*types.Chan](c.Elem()).Dir() == types.RecvOnly
+}
+
+func spellsBasic(e ast.Expr, b *types.Basic) bool {
+	return vs.TypeIs[*ast.Ident](e) && vs.As[*ast.Ident](e) != nil && vs.As[*ast.Ident](e).Name == b.Name()
+}
+
+func spellsPointer(e ast.Expr, p *types.Pointer) bool {
+	return vs.TypeIs[*ast.StarExpr](e) && vs.As[*ast.StarExpr](e) != nil && spelledFor(vs.As[*ast.StarExpr](e).X, p.Elem())
+}
+
+func spellsSlice(e ast.Expr, s *types.Slice) bool {
+	return vs.TypeIs[*ast.ArrayType](e) && vs.As[*ast.ArrayType](e) != nil && vs.As[*ast.ArrayType](e).Len == nil &&
+		spelledFor(vs.As[*ast.ArrayType](e).Elt, s.Elem())
+}
+
+func spellsArray(e ast.Expr, a *types.Array) bool {
+	return vs.TypeIs[*ast.ArrayType](e) && vs.As[*ast.ArrayType](e) != nil &&
+		vs.TypeIs[*ast.BasicLit](vs.As[*ast.ArrayType](e).Len) && vs.As[*ast.BasicLit](vs.As[*ast.ArrayType](e).Len) != nil &&
+		vs.As[*ast.BasicLit](vs.As[*ast.ArrayType](e).Len).Kind == token.INT &&
+		vs.As[*ast.BasicLit](vs.As[*ast.ArrayType](e).Len).Value == fmt.Sprintf("%d", a.Len()) &&
+		spelledFor(vs.As[*ast.ArrayType](e).Elt, a.Elem())
+}
+
+func spellsMap(e ast.Expr, m *types.Map) bool {
+	return vs.TypeIs[*ast.MapType](e) && vs.As[*ast.MapType](e) != nil &&
+		spelledFor(vs.As[*ast.MapType](e).Key, m.Key()) && spelledFor(vs.As[*ast.MapType](e).Value, m.Elem())
+}
+
+func spellsChan(e ast.Expr, c *types.Chan) bool {
+	return vs.TypeIs[*ast.ChanType](e) && vs.As[*ast.ChanType](e) != nil && vs.As[*ast.ChanType](e).Dir == chanDirOf(c.Dir()) &&
+		vs.Implies(!needsParens(c), spelledFor(vs.As[*ast.ChanType](e).Value, c.Elem())) &&
+		vs.Implies(needsParens(c), vs.TypeIs[*ast.ParenExpr](vs.As[*ast.ChanType](e).Value) && vs.As[*ast.ParenExpr](vs.As[*ast.ChanType](e).Value) != nil &&
+			spelledFor(vs.As[*ast.ParenExpr](vs.As[*ast.ChanType](e).Value).X, c.Elem()))
+}
+
+func isIdent(e ast.Expr, name string) bool {
+	return vs.TypeIs[*ast.Ident](e) && vs.As[*ast.Ident](e) != nil && vs.As[*ast.Ident](e).Name == name
+}
+
+// qualifiedName: the name of a declared type as seen from package pkg - bare inside its own package (and for
+// predeclared types), otherwise selected from the name the import table gives its package
+func qualifiedName(e ast.Expr, o *types.TypeName, pkg string, imports map[string]*Import) bool {
+	return vs.Implies(!foreignPackage(o, pkg), isIdent(e, o.Name())) &&
+		vs.Implies(foreignPackage(o, pkg), vs.TypeIs[*ast.SelectorExpr](e) && vs.As[*ast.SelectorExpr](e) != nil &&
+			vs.Has(imports, o.Pkg().Path()) && imports[o.Pkg().Path()] != nil &&
+			isIdent(ast.Expr(vs.As[*ast.SelectorExpr](e).X), imports[o.Pkg().Path()].Name) &&
+			vs.As[*ast.SelectorExpr](e).Sel != nil && vs.As[*ast.SelectorExpr](e).Sel.Name == o.Name())
+}
+
+func typeArgCount(n *types.Named) int {
+	if n.TypeArgs() == nil {
+		return 0
+	}
+	return n.TypeArgs().Len()
+}
+
+// spellsNamed: Name, pkg.Name, Name[Arg] or Name[Arg, ...] with the arguments spelled in order
+func spellsNamed(e ast.Expr, n *types.Named, pkg string, imports map[string]*Import) bool {
+	return vs.Implies(typeArgCount(n) == 0, qualifiedName(e, n.Obj(), pkg, imports)) &&
+		vs.Implies(typeArgCount(n) == 1, vs.TypeIs[*ast.IndexExpr](e) && vs.As[*ast.IndexExpr](e) != nil &&
+			qualifiedName(vs.As[*ast.IndexExpr](e).X, n.Obj(), pkg, imports) && spelledFor(vs.As[*ast.IndexExpr](e).Index, n.TypeArgs().At(0))) &&
+		vs.Implies(typeArgCount(n) > 1, vs.TypeIs[*ast.IndexListExpr](e) && vs.As[*ast.IndexListExpr](e) != nil &&
+			qualifiedName(vs.As[*ast.IndexListExpr](e).X, n.Obj(), pkg, imports) &&
+			len(vs.As[*ast.IndexListExpr](e).Indices) == typeArgCount(n) &&
+			vs.Forall(typeArgCount(n), func(i int) bool { return spelledFor(vs.As[*ast.IndexListExpr](e).Indices[i], n.TypeArgs().At(i)) }))
+}
+
+//kvc:ghost createASTTypeExpr@spelling after "argExpr, err := createASTTypeExpr(pkg, typeArgs.At(i), varPool, imports)"
+func ghostSpellsTypeArg(argExpr ast.Expr, err error, typeArgs *types.TypeList, i int) {
+	if err == nil {
+		gSpells[argExpr] = typeArgs.At(i)
+	}
+}
+
+//kvc:contract createASTTypeExpr@spelling
+func contract_createASTTypeExpr_spelling(pkg string, t types.Type, varPool *VarPool, imports map[string]*Import) (result ast.Expr, err error) {
+	vs.Requires(poolInv(varPool) && imports != nil && importsNonNil(imports))
+	vs.Ensures("expr_or_error", (err == nil) == (result != nil))
+	vs.Ensures("imports_nonnil", importsNonNil(imports))
+	vs.Ensures("fresh_expression", vs.Implies(err == nil, vs.IsAllocated(result) && !vs.Old(vs.IsAllocated(result))))
+	vs.Ensures("earlier_records_kept", vs.ForallValue(func(e ast.Expr) bool {
+		return vs.Implies(vs.Old(vs.IsAllocated(e)), gSpells[e] == vs.Old(gSpells[e]))
+	}))
+	vs.Ensures("basic", vs.Implies(err == nil && vs.TypeIs[*types.Basic](t) && vs.As[*types.Basic](t).Kind() != types.UnsafePointer, spellsBasic(result, vs.As[*types.Basic](t))))
+	vs.Ensures("pointer", vs.Implies(err == nil && vs.TypeIs[*types.Pointer](t), spellsPointer(result, vs.As[*types.Pointer](t))))
+	vs.Ensures("slice", vs.Implies(err == nil && vs.TypeIs[*types.Slice](t), spellsSlice(result, vs.As[*types.Slice](t))))
+	vs.Ensures("array", vs.Implies(err == nil && vs.TypeIs[*types.Array](t), spellsArray(result, vs.As[*types.Array](t))))
+	vs.Ensures("map", vs.Implies(err == nil && vs.TypeIs[*types.Map](t), spellsMap(result, vs.As[*types.Map](t))))
+	vs.Ensures("chan", vs.Implies(err == nil && vs.TypeIs[*types.Chan](t), spellsChan(result, vs.As[*types.Chan](t))))
+	vs.Ensures("named", vs.Implies(err == nil && vs.TypeIs[*types.Named](t), spellsNamed(result, vs.As[*types.Named](t), pkg, imports)))
+	vs.Ensures("alias", vs.Implies(err == nil && vs.TypeIs[*types.Alias](t), qualifiedName(result, vs.As[*types.Alias](t).Obj(), pkg, imports)))
+	vs.Ensures("imports_only_grow", importsOnlyGrow(imports))
+	vs.Ensures("pool_inv", poolInv(varPool))
+	vs.Modifies(imports, varPool.vars, gSpells)
+	vs.Allocates()
+	return
+}
+
+// what every loop of createASTTypeExpr keeps
+func spellingEnv(varPool *VarPool, imports map[string]*Import) bool {
+	return poolInv(varPool) && imports != nil && importsNonNil(imports)
+}
+
+func earlierRecordsKept() bool {
+	return vs.ForallValue(func(e ast.Expr) bool {
+		return vs.Implies(vs.Old(vs.IsAllocated(e)), gSpells[e] == vs.Old(gSpells[e]))
+	})
+}
+
+func oldFieldsUntouched() bool {
+	return vs.ForallRef(func(f *ast.Field) bool {
+		return vs.Implies(vs.Old(vs.IsAllocated(f)), vs.SameSlice(f.Names, vs.Old(f.Names)) && f.Tag == vs.Old(f.Tag))
+	})
+}
+
+//kvc:loop createASTTypeExpr@spelling "for i := 0; i < typeArgs.Len(); i++"
+func inv_spelling_typeargs(pkg string, varPool *VarPool, imports map[string]*Import, typ *types.Named, namedExpr ast.Expr, typeArgs *types.TypeList, argExprs []ast.Expr, i int) {
+	vs.Invariant("env", spellingEnv(varPool, imports))
+	vs.Invariant("earlier_records_kept", earlierRecordsKept())
+	vs.Invariant("imports_only_grow", importsOnlyGrow(imports))
+	vs.Invariant("name", qualifiedName(namedExpr, typ.Obj(), pkg, imports) && vs.IsAllocated(namedExpr) && !vs.Old(vs.IsAllocated(namedExpr)))
+	vs.Invariant("arguments_so_far", 0 <= i && i <= typeArgs.Len() && len(argExprs) == i && vs.Forall(i, func(j int) bool {
+		return spelledFor(argExprs[j], typeArgs.At(j)) && vs.IsAllocated(argExprs[j]) && !vs.Old(vs.IsAllocated(argExprs[j]))
+	}))
+}
+
+//kvc:loop createASTTypeExpr@spelling "for method := range typ.Methods()"
+func inv_spelling_methods(varPool *VarPool, imports map[string]*Import) {
+	vs.Invariant("env", spellingEnv(varPool, imports))
+	vs.Invariant("earlier_records_kept", earlierRecordsKept())
+	vs.Invariant("imports_only_grow", importsOnlyGrow(imports))
+}
+
+//kvc:loop createASTTypeExpr@spelling "for i := 0; i < typ.Params().Len(); i++"
+func inv_spelling_params(varPool *VarPool, imports map[string]*Import) {
+	vs.Invariant("env", spellingEnv(varPool, imports))
+	vs.Invariant("earlier_records_kept", earlierRecordsKept())
+	vs.Invariant("imports_only_grow", importsOnlyGrow(imports))
+}
+
+//kvc:loop createASTTypeExpr@spelling "for i := 0; i < typ.Results().Len(); i++"
+func inv_spelling_results(varPool *VarPool, imports map[string]*Import) {
+	vs.Invariant("env", spellingEnv(varPool, imports))
+	vs.Invariant("earlier_records_kept", earlierRecordsKept())
+	vs.Invariant("imports_only_grow", importsOnlyGrow(imports))
+}
+
+//kvc:loop createASTTypeExpr@spelling "for i := 0; i < typ.NumFields(); i++"
+func inv_spelling_fields(varPool *VarPool, imports map[string]*Import) {
+	vs.Invariant("env", spellingEnv(varPool, imports))
+	vs.Invariant("earlier_records_kept", earlierRecordsKept())
+	vs.Invariant("imports_only_grow", importsOnlyGrow(imports))
+	vs.Invariant("old_fields_untouched", oldFieldsUntouched())
 }
